@@ -382,6 +382,42 @@ theorem tokenizer_scan_loop_shape :
       scanOffset = "current - self._current if current > self._current else 1" := by
   decide +kernel
 
+/-- the error funnel of `TokenizerCore.tokenize` as the source has it today: the `try` guards `self._scan()`, catches
+    `Exception` (not a hand-picked tuple) and re-raises TokenError; the wrappers between the public API and the two funnels
+    (`Tokenizer.tokenize`, `Dialect.tokenize`, `Dialect.parse`, `Parser.parse`) contain no `try` of their own -/
+theorem tokenizer_funnel_catches_exception :
+    tokenizeTryGuardsScan = true ∧ tokenizeHandlers.contains "Exception" = true ∧ tokenizeHandlerRaises = ["TokenError"] ∧
+      wrapperTryCounts.all (fun p => p.2 == 0) = true := by
+  decide +kernel
+
+/-- `tokenize_outcome`: with a funnel that catches `Exception` and re-raises TokenError, whatever an iteration of the scan
+    loop raises (KeyError, IndexError, RecursionError, …) and whatever the characters are, `tokenize` ends in the tokens
+    or in TokenError — never in another exception, and never still running after `size - current` iterations -/
+theorem tokenize_outcome (handlers raises : List String) (hb : handlers.contains "Exception" = true)
+    (hr : raises = ["TokenError"]) (size : Nat) (step : Nat → Except Exc Nat)
+    (hp : ∀ c c', step c = .ok c' → c < c') (c : Nat) :
+    tokenizeModel handlers raises size step (size - c) c = .ok ∨
+      tokenizeModel handlers raises size step (size - c) c = .tokenError :=
+  tokenizeModel_spec handlers raises hb hr size step hp (size - c) c (Nat.le_refl _)
+
+/-- … instantiated with the handler list re-extracted from the source on this run -/
+theorem tokenize_outcome_current_source (size : Nat) (step : Nat → Except Exc Nat)
+    (hp : ∀ c c', step c = .ok c' → c < c') (c : Nat) :
+    tokenizeModel tokenizeHandlers tokenizeHandlerRaises size step (size - c) c = .ok ∨
+      tokenizeModel tokenizeHandlers tokenizeHandlerRaises size step (size - c) c = .tokenError :=
+  tokenize_outcome _ _ tokenizer_funnel_catches_exception.2.1 tokenizer_funnel_catches_exception.2.2.1 size step hp c
+
+example : tokenizeModel ["Exception"] ["TokenError"] 3 (fun c => if c = 1 then .error .keyError else .ok (c + 1)) 3 0
+    = .tokenError := by decide
+
+/-- the broad catch is needed: with `except (TokenError, IndexError)` a KeyError out of `_scan_keywords` (Dune: the trie
+    matches `x'` case-insensitively, the format-string dict has only `X'`) or a RecursionError out of nested command
+    scanning leaves `tokenize` as it is -/
+theorem tokenize_funnel_needs_broad_catch :
+    tokenizeModel ["TokenError", "IndexError"] ["TokenError"] 3 (fun _ => .error .keyError) 3 0 = .leaked .keyError ∧
+    tokenizeModel ["TokenError", "IndexError"] ["TokenError"] 3 (fun _ => .error .recursionError) 3 0
+      = .leaked .recursionError := by decide
+
 /-- the statements of the parser glue the cursor model mirrors -/
 theorem parser_glue_shape :
     retreatBody = ["if index != self._index: self._advance(index - self._index)"] ∧
